@@ -5,7 +5,7 @@ From Coq Require Import Reals Lra Lia Arith List Bool ZArith.
 From Coquelicot Require Import Coquelicot.
 From RL Require Import Base.Outcome Base.Num Base.NumR Base.Str Model.Dual Model.Linalg Model.Spline
   Model.PPSpline Proofs.LinalgL Proofs.LinalgP Proofs.LinalgT Proofs.LinalgI
-  Proofs.SplinePoly Proofs.SplineP Proofs.PPSplineP Proofs.PPSplineR Proofs.PPSplinePoly.
+  Proofs.SplinePoly Proofs.SplineMarsden Proofs.SplineP Proofs.PPSplineP Proofs.PPSplineR Proofs.PPSplinePoly.
 Import ListNotations.
 Open Scope R_scope.
 
@@ -96,4 +96,36 @@ Proof.
   apply (poly_partial_R k n t c0 s' tau y l r (shifted_powers k q) (marsden_coeffs k n t q) Adm HS Hns).
   - unfold marsden_coeffs. rewrite map_length, seq_length. reflexivity.
   - intros j Hj Hs x. apply marsden_reproduces; auto.
+Qed.
+
+(* ------------------------------------------------------------------ every polynomial of degree < k *)
+Definition poly_cstar (k n : nat) (t : list R) (a : list R) : list R :=
+  map (fun i => poly_coeff (tn t) k a 0 i) (seq 0 n).
+
+Lemma poly_cstar_repro k n t a : admissible k n t -> (length a <= k)%nat ->
+  forall j, (k - 1 <= j <= n - 1)%nat -> tn t j < tn t (S j) ->
+  forall x, dotR (map (fun i => P (tn t) j k i x) (seq 0 n)) (poly_cstar k n t a) = peval a x.
+Proof.
+  intros A La j Hj Hs x. pose proof A as (Hk & Hn & Len & ND & He & Hl).
+  unfold poly_cstar. rewrite dotR_map_seq. cbn [Nat.add].
+  apply (poly_repro (tn t) (tn_mono t ND) j Hs k n x a); auto; lia.
+Qed.
+
+(* C15_poly: the spline solved on samples of ANY polynomial of degree < k (coefficient list a,
+   p x = a_0 + a_1 x + ...) is that polynomial, with all derivatives, on the whole domain *)
+Lemma poly_R k n t (c0 : option (list R)) (s' : @ppspline R R) tau y l r (a : list R) :
+  admissible k n t -> (length a <= k)%nat ->
+  csolve xmul_num (mkPP k t c0 n) tau y l r false = Ok s' ->
+  (forall B, bsplmatrix (mkPP k t c0 n) tau l r = Ok B -> nonsingular n B) ->
+  (forall jx x, nth_error tau jx = Some x -> tn t (k - 1) <= x <= tn t n) ->
+  length y = length tau ->
+  (forall jx x, nth_error tau jx = Some x ->
+     nth_error y jx = Some (Derive_n (peval a) (row_m l r (length tau) jx) x)) ->
+  forall x m, tn t (k - 1) <= x <= tn t n ->
+    ppdnev_single xmul_num s' x m = Ok (Derive_n (peval a) m x).
+Proof.
+  intros Adm La HS Hns.
+  apply (poly_partial_R k n t c0 s' tau y l r (peval a) (poly_cstar k n t a) Adm HS Hns).
+  - unfold poly_cstar. rewrite map_length, seq_length. reflexivity.
+  - intros j Hj Hs x. apply poly_cstar_repro; auto.
 Qed.
